@@ -598,10 +598,11 @@ class Runner:
                 try:
                     async with self.sio.session(sid, namespace=ns) as sa:
                         sa.update(a1)
-                        if b is not None:
+                        for bi in (b if isinstance(b, list) else
+                                   [b] if b is not None else []):
                             async with self.sio.session(
                                     sid, namespace=ns) as sb:
-                                sb.update(b)
+                                sb.update(bi)
                         sa.update(a2)
                         if raises:
                             raise Leave()
@@ -611,9 +612,10 @@ class Runner:
         try:
             with self.sio.session(sid, namespace=ns) as sa:
                 sa.update(a1)
-                if b is not None:
+                for bi in (b if isinstance(b, list) else
+                           [b] if b is not None else []):
                     with self.sio.session(sid, namespace=ns) as sb:
-                        sb.update(b)
+                        sb.update(bi)
                 sa.update(a2)
                 if raises:
                     raise Leave()
